@@ -638,7 +638,7 @@ func runCase(run *hx.Run, d desc, kind string) {
 	if gp && extent(uniq) <= 1000 {
 		gp = generalPosition(uniq)
 	} else if gp {
-		gp = len(uniq) <= 16 && generalPositionWide(uniq)
+		gp = len(uniq) <= 80 && generalPositionWide(uniq)
 	}
 	if !gp || !(exactOK(d) || (d.Wide && !d.Dup && wideOK(d))) {
 		run.Count("skipped:not-general-position-or-not-exact")
@@ -701,8 +701,19 @@ func runCase(run *hx.Run, d desc, kind string) {
 		run.Count("repeated-points(coverage not judged)")
 	}
 	if c.GoFail == "" && !d.Dup {
-		if _, orphan := faithful(ps); orphan {
+		_, orphan, maxCav := faithful(ps)
+		if orphan {
 			run.Count("some-input-point-in-no-triangle")
+		}
+		switch {
+		case maxCav <= 8:
+			run.Count("max-cavity:1-8")
+		case maxCav <= 16:
+			run.Count("max-cavity:9-16")
+		case maxCav <= 32:
+			run.Count("max-cavity:17-32")
+		default:
+			run.Count("max-cavity:33+")
 		}
 		complete, key, missing := classify(ps, o.tris)
 		c.FailKey = key
@@ -792,6 +803,34 @@ func main() {
 	} {
 		runCase(run, d, "pts")
 	}
+	{ // a fixed wheel: 24 rim points on a slightly perturbed circle, the hub last (cavity of about 22
+		// triangles).  Mirror images about the middle of the bounding box are concyclic with the two base
+		// vertices of the super triangle, so the first perturbation the faithful-run filter admits is used.
+		for seed := uint64(20); ; seed++ {
+			fr := hx.NewRng(seed)
+			var rim []P
+			for len(rim) < 24 {
+				th := 2 * math.Pi * (float64(len(rim)) + 0.2*fr.Float()) / 24
+				p := P{1000 + int64(math.Round(1000*math.Cos(th))) + int64(fr.Intn(9)) - 4, 1000 + int64(math.Round(1000*math.Sin(th))) + int64(fr.Intn(9)) - 4}
+				if okToAdd(rim, p) {
+					rim = append(rim, p)
+				}
+			}
+			hub := P{1013, 991}
+			for !okToAdd(rim, hub) {
+				hub.x++
+			}
+			x0, y0, _, _ := bbox(rim)
+			d := desc{Model: true, Wide: true, Gen: "fixed-wheel"}
+			for _, p := range append(rim, hub) {
+				d.Pts = append(d.Pts, [2]int64{p.x - x0, p.y - y0})
+			}
+			if wideOK(d) {
+				runCase(run, d, "pts")
+				break
+			}
+		}
+	}
 	r := hx.NewRng(run.Seed)
 	maxBig := 200
 	if run.Tier == "thorough" {
@@ -802,6 +841,8 @@ func main() {
 		switch {
 		case i%8 == 3: // sparse thin near-collinear sets far beyond the exact grid
 			d = genSliver(r)
+		case i%8 == 5: // wheels: a rim in convex position and hub points of very high degree
+			d = genWheel(r, 64)
 		case i%16 == 13: // exactly repeated points
 			d = genDup(r)
 		case i%16 == 7: // checker only, larger
